@@ -20,18 +20,7 @@ from ariadne_codegen.graphql_schema_generators import utils as SU
 from ariadne_codegen.graphql_schema_generators import constants as SK
 
 MODF = "ariadne_codegen.graphql_schema_generators.fields:"
-V.REG.register(G.GraphQLArgument, ["type", "default_value", "description", "deprecation_reason"],
-               build=lambda type=None, default_value=G.Undefined, description=None, deprecation_reason=None:
-               G.GraphQLArgument(type or G.GraphQLInt, default_value=default_value, description=GQ._descr(description), deprecation_reason=GQ._descr(deprecation_reason)))
-V.REG.register(G.GraphQLInputField, ["type", "default_value", "description", "deprecation_reason"],
-               build=lambda type=None, default_value=G.Undefined, description=None, deprecation_reason=None:
-               G.GraphQLInputField(type or G.GraphQLInt, default_value=default_value, description=GQ._descr(description), deprecation_reason=GQ._descr(deprecation_reason)))
-V.REG.register(G.GraphQLField, ["type", "args", "description", "deprecation_reason"],
-               build=lambda type=None, args=None, description=None, deprecation_reason=None:
-               G.GraphQLField(type or G.GraphQLInt, args={k: v for k, v in (args or {}).items() if isinstance(v, G.GraphQLArgument)}, description=GQ._descr(description), deprecation_reason=GQ._descr(deprecation_reason)))
-V.REG.register(G.GraphQLEnumValue, ["value", "description", "deprecation_reason"],
-               build=lambda value=None, description=None, deprecation_reason=None: G.GraphQLEnumValue(value, description=GQ._descr(description), deprecation_reason=GQ._descr(deprecation_reason)))
-UNDEFINED = V.VAtom(z3.IntVal(V.REG.atom(G.Undefined, "Undefined")))
+UNDEFINED = GQ.UNDEFINED
 
 NAMED_ANY = OneOf(*[Cls(c, name=GQ.NAME) for c in (G.GraphQLScalarType, G.GraphQLEnumType, G.GraphQLInputObjectType, G.GraphQLObjectType,
                                                    G.GraphQLInterfaceType, G.GraphQLUnionType)])
